@@ -18,6 +18,7 @@ type historyScn struct {
 	Hist  []scenario `json:"hist"`
 	Probe scenario   `json:"probe"`
 	Rpcs  []scenario `json:"rpcs"`
+	Seed  int64      `json:"seed,omitempty"` // set on replay: the seed the line had in the original run
 }
 
 func init() {
@@ -25,6 +26,9 @@ func init() {
 		var hs historyScn
 		if err := json.Unmarshal(raw, &hs); err != nil {
 			panic(err)
+		}
+		if hs.Seed != 0 {
+			seed = hs.Seed
 		}
 		sh, err := newSharedTC(hs.Probe.Cfg)
 		if err != nil {
@@ -60,13 +64,21 @@ func init() {
 		if len(hs.Rpcs) == 0 {
 			return nil
 		}
+		if hs.Seed != 0 {
+			seed = hs.Seed
+		}
 		sh, err := newSharedTC(hs.Rpcs[0].Cfg)
 		if err != nil {
 			panic(err)
 		}
 		watchPool(sh.tc)
 		out := make([]observation, len(hs.Rpcs))
-		const rounds = 6 // every RPC is repeated so that the pool is actually shared and re-used
+		rounds := 6 // every RPC is repeated so that the pool is actually shared and re-used
+		for _, r := range hs.Rpcs {
+			if r.Hd.NestBig {
+				rounds = 16 // (which buffer the nested RPC is handed depends on the pool's per-P state: more tries)
+			}
+		}
 		var wg sync.WaitGroup
 		start := make(chan struct{})
 		for k := range hs.Rpcs {
